@@ -236,10 +236,25 @@ def run(rep, F, ctx):
                     '' if okc else '%s decides with %s instead of equality: it accepts values that merely contain / end with the expected one' % (mname, badc or cmp_names))
         else:
             rep.add('EQ', 'macro:%s:eq' % m, '%s uses no containment-style comparison' % mname, not badc, '%s:%d' % (B.file, B.line), '' if not badc else 'uses %s' % badc)
+        # ---- EQ (whole value): a primitive ==/!= that decides a branch compares the queried value itself, not a masked / shifted / reduced part of it
+        from panics import sdesc_operand
+        partial = []
+        for bi, bj, st in B.assigns():
+            rv = st['rv']
+            if rv['k'] == 'binop' and rv['op'] in ('Eq', 'Ne'):
+                for side in (rv['l'], rv['r']):
+                    dsc = sdesc_operand(B, side)
+                    if re.search(r'\b(BitAnd|BitOr|BitXor|Shr|Shl|Rem|Div)\(', dsc):
+                        partial.append(dsc)
+        rep.add('EQ', 'macro:%s:whole-value' % m, '%s compares whole values (no masked / shifted operand)' % mname, not partial, '%s:%d' % (B.file, B.line),
+                '' if not partial else '%s compares only a part of the value (%s): states that differ in the remaining bits are accepted' % (mname, sorted(set(partial))))
         # every panic-capable macro has at least one panic site
         rep.add('CHECK', 'macro:%s:can-panic' % m, '%s has a failing (panic) exit' % mname, bool(panics_), '%s:%d' % (B.file, B.line),
                 '' if panics_ else '%s never panics: it cannot report a violated assertion' % mname)
     rep.floor('CHECK', 'macros analysed', n, 19)
+    import siteguard as _sg
+    _t = engine.load_table('site_guards_harness.json')
+    _sg.site_guard(rep, H, _sg.BodyOnly(H), _t, _t['_groups']['C20'])
     return engine.finish(
         rep, 'other', EXPLANATION,
         assumptions=['the probe functions expand each macro with a `&Vfs` receiver and plain path arguments (the common use); expansion hygiene makes other argument expressions equivalent',
